@@ -53,6 +53,22 @@ func (m Manifest) Clone() Manifest {
 	return m
 }
 
+// DuplicatedPackage returns the name of a package that several direct requirements of an npm
+// manifest address under different keys (aliased duplicates), "" when there is none.
+func (m Manifest) DuplicatedPackage() string {
+	if m.System != NPM {
+		return ""
+	}
+	for i, d := range m.Deps {
+		for _, e := range m.Deps[:i] {
+			if e.Name == d.Name && e.Alias != d.Alias {
+				return d.Name
+			}
+		}
+	}
+	return ""
+}
+
 func jstr(s string) string {
 	b, _ := json.Marshal(s)
 	return string(b)
